@@ -26,8 +26,8 @@ import (
 // evaluation on a held result, or an environment step on the pool.
 
 var c13Lists = []scen.ListSpec{
-	{ID: 1, Text: "! list A\n||example.org^\n||example.org/ads\n||ads.example.com^\n/ex[a-z]+le\\.net/\n/ad$domain=example.org\n@@||example.org^$generichide\n##.g1\nexample.org##.s1\nexample.org#@#.g2\n##.g2\n/(/\n@@||docsite.test^$document\nmetrics.example.com^\n||cdn.test/blocked.js\n@@||news.example.org/reader/$urlblock\n||tracker.test^\n~other.net##.g3\n##.u1\n##.u2\n##.u3\n##.u4\n"},
-	{ID: 2, Text: "# list B\n0.0.0.0 example.org\n:: example.org\n127.0.0.1 hosts.test alias.test\n||blocked.test^$client=10.0.0.1\n||tagged.test^$ctag=pc\n||tagged.test^$dnstype=AAAA,important\n||rw.test^$dnsrewrite=1.2.3.4\n||rw.test^$dnsrewrite=2.3.4.5\n@@||rw.test^$dnsrewrite=1.2.3.4\n||rw.test^$dnsrewrite=NOERROR;MX;10 mx.test\n@@||rw.test^$dnsrewrite=NOERROR;MX;10 mx.test\n/h[o0]sts\\.test/\n"},
+	{ID: 1, Text: "! list A\n||example.org^\n||example.org/ads\n||ads.example.com^\n/ex[a-z]+le\\.net/\n/ad$domain=example.org\n/ads$domain=example.org\n@@||example.org^$generichide\n##.g1\nexample.org##.s1\nexample.org#@#.g2\n##.g2\n/(/\n@@||docsite.test^$document\nmetrics.example.com^\n||cdn.test/blocked.js\n@@||news.example.org/reader/$urlblock\n||tracker.test^\n~other.net##.g3\n##.u1\n##.u2\n##.u3\n##.u4\n"},
+	{ID: 2, Text: "# list B\n0.0.0.0 example.org\n:: example.org\n127.0.0.1 hosts.test alias.test\n||blocked.test^$client=10.0.0.1\n||tagged.test^$ctag=pc\n||tagged.test^$dnstype=AAAA,important\n||rw.test^$dnsrewrite=3.3.3.3\n||rw.test^$dnsrewrite=3.3.3.3,badfilter\n||rw.test^$dnsrewrite=1.2.3.4\n||rw.test^$dnsrewrite=2.3.4.5\n@@||rw.test^$dnsrewrite=1.2.3.4\n||rw.test^$dnsrewrite=NOERROR;MX;10 mx.test\n@@||rw.test^$dnsrewrite=NOERROR;MX;10 mx.test\n/h[o0]sts\\.test/\n"},
 	{ID: -3, Text: "||blocked.test^$ctag=~pc\n@@||ads.example.com^$script\n||example.org^$third-party\n"},
 }
 
@@ -54,6 +54,7 @@ func c13Ops() []c13Op {
 		{name: "dns blocked.test anonymous", query: d("blocked.test", 1, "", ""), slot: -1},
 		{name: "dns tagged.test A no tags", query: d("tagged.test", 1, "", ""), slot: -1},
 		{name: "netall example.org/ads from example.org", query: q("netall", "http://example.org/ads?u=example.org", "http://example.org/", rules.TypeScript), slot: -1},
+		{name: "netmatch example.org/ads from example.org (two equal-priority rules of the domains table)", query: q("netmatch", "http://example.org/ads", "http://example.org/", rules.TypeScript), slot: -1},
 		{name: "netall exaample.net (regex rules)", query: q("netall", "http://exaample.net/", "", rules.TypeImage), slot: -1},
 		{name: "engine example.org/ads from other.org", query: q("engine", "http://example.org/ads", "http://other.org/", rules.TypeScript), slot: 2},
 		{name: "netmatch ads.example.com", query: q("netmatch", "http://ads.example.com/x", "", rules.TypeScript), slot: -1},
@@ -143,10 +144,10 @@ func (m *c13Model) step(e *scen.Engines, pool *vsyncutil.Pool[rules.Request], he
 			switch op.slot {
 			case 0, 1:
 				res, ok := e.DNS.MatchRequest(op.query.DNSRequest())
-				ans = scen.RenderDNSResult(res, ok) + " rewrites=" + scen.RenderNets(res.DNSRewrites())
 				h := &c13Held{dns: res, ok: ok}
-				h.snap = h.render()
+				h.snap = h.render() // taken before any derived evaluation
 				held[op.slot] = h
+				ans = h.snap + " rewrites=" + scen.RenderNets(res.DNSRewrites())
 			case 2, 3:
 				mr := e.Eng.MatchRequest(rules.NewRequest(op.query.URL, op.query.Src, op.query.Type))
 				ans = scen.RenderMatchingResult(mr)
